@@ -748,7 +748,7 @@ impl MapKeys {
         if len == 0 {
             return;
         }
-        let by = (-by).rem_euclid(len as isize) as usize;
+        let by = (len - by.rem_euclid(len as isize) as usize) % len;
         if by == 0 {
             return;
         }
